@@ -11,7 +11,8 @@ RULE = ("model-driven, typestate-pruned enumeration of call histories: for each 
         "extended breadth-first, the model telling which state each history is in; frontier capped by seeded sampling (quick: depth 9, "
         "cap 900 per depth and configuration group; thorough: depth 12, cap 6000). Every history is then replayed on the implementation. "
         "oracle = documented state graph + readiness<=>advancing, computed from the script alone. non-trivial = history reaches at least "
-        "RecvResponse; distinct = distinct op lists")
+        "RecvResponse; distinct = distinct op lists. The single-call API (Call: write, into_receive, try_response, into_body, read, ...) is enumerated "
+        "the same way over 7 configurations (oracle there: no panic; comparison with the model)")
 TRUSTED_BASE = COMMON_TRUSTED_BASE
 ASSUMPTIONS = ["histories start at Flow::new; at most a handful of added headers (the 64-entry limit of added headers is outside the property)",
                "the enumeration order is driven by the model (DESIGN.md section 7, C09); a state the implementation permits but the model does not shows up as a disagreement"]
@@ -149,12 +150,69 @@ def enumerate_histories(rng, depth, cap):
     return results
 
 
+# ---- the single-call API (Call::without_body / with_body ... into_receive, try_response, into_body, read): the same model-driven
+# enumeration over its own menu. The state graph of the statement is about Flow; for Call objects the oracle asks for no panic and the
+# comparison with the model does the rest.
+CALL_CONFIGS = [
+    ("call_without", "GET", "1.1", []), ("call_without", "HEAD", "1.1", []), ("call_without", "POST", "1.1", [("content-length", "2")]),
+    ("call_with", "POST", "1.1", []), ("call_with", "PUT", "1.1", [("content-length", "2")]), ("call_with", "POST", "1.0", [("content-length", "0")]),
+    ("call_with", "GET", "1.1", []),
+]
+CALL_MENU = {
+    "CallWithout": ["write_head #100000", "write_head #12", "q_is_finished", "proceed"],
+    "CallWith": ["write_body x #100000", "write_body %s #100" % hx(b"hi"), "write_body x #3", "write_body %s #3" % hx(b"hi"), "q_is_finished", "proceed"],
+    "CallRecvResponse": ["raw_try_response %s" % hx(v) for k, v in RESPONSES.items() if k in ("len0", "len3", "chunked", "close", "204", "redir-body", "100")]
+                        + ["raw_try_response %s" % hx(b"HTTP/1.1 200 OK\r\nContent-Le"), "raw_try_response %s" % hx(b"nonsense\r\n\r\n"), "q_is_finished", "proceed"],
+    "CallRecvBody": ["raw_read %s #100" % hx(b) for b in BODIES] + ["raw_read %s #1" % hx(b"abc"), "raw_read x #100", "stop #1", "q_boundary", "q_is_finished", "proceed"],
+}
+
+
+def enumerate_call_histories(rng, depth, cap):
+    results = []
+    for ci, (ctor, method, version, headers) in enumerate(CALL_CONFIGS):
+        first = "%s %s" % (ctor, request_args(method, version, "http", "a.test", "/p", headers))
+        frontier = [([first], "CallWithout" if ctor == "call_without" else "CallWith")]
+        for d in range(depth):
+            cands = []
+            for ops, tag in frontier:
+                for op in CALL_MENU.get(tag, []):
+                    if op.startswith(QUERY_PREFIX) and len(ops) >= 2 and ops[-1].startswith(QUERY_PREFIX):
+                        continue
+                    if len(ops) >= 3 and ops[-1] == op and ops[-2] == op:
+                        continue
+                    cands.append((ops + [op], tag))
+            if len(cands) > cap:
+                cands = rng.sample(cands, cap)
+            obs = run_model([c[0] for c in cands])
+            nxt = []
+            for (ops, tag), o in zip(cands, obs):
+                last = o[-1] if o else "np"
+                if last in ("np", "badop"):
+                    continue
+                if last == "panic":
+                    results.append((ci, ops))
+                    continue
+                if last.startswith("call "):
+                    tag = "Call" + last.split(" ")[1]
+                elif ops[-1] == "proceed":
+                    results.append((ci, ops))       # the call is gone (an error, or "no body"): keep the history, do not extend it
+                    continue
+                nxt.append((ops, tag))
+            results.extend((ci, ops) for ops, _ in nxt)
+            frontier = nxt
+    return results
+
+
 def generate(rng, tier, mult):
     depth, cap = (9, 900) if tier == "quick" else (12, 6000)
     hist = enumerate_histories(rng, depth, cap * mult)
     out = []
     for ci, ops in hist:
         out.append({"ops": ops, "meta": {"config": ci}})
+    cdepth, ccap = (7, 150) if tier == "quick" else (9, 1500)
+    for ci, ops in enumerate_call_histories(rng, cdepth, ccap * mult):
+        out.append({"ops": ops, "meta": {"config": ci, "api": "call"}})
+    _stats["call_api_histories"] = sum(1 for s in out if s["meta"].get("api") == "call")
     return out
 
 
@@ -201,6 +259,11 @@ def known_class(script, obs):
 
 
 def oracle(script, obs):
+    if script["meta"].get("api") == "call":
+        for i, o in enumerate(obs):
+            if o == "panic":
+                return ["single-call API: op %d (%s) panics" % (i, script["ops"][i].split(" ")[0])]
+        return []
     method, version, headers, despite0 = CONFIGS[script["meta"]["config"]]
     ops = script["ops"]
     fails = []
@@ -352,4 +415,4 @@ def successor_after_head(method, head):
 
 
 def nontrivial(script, obs):
-    return any(o in ("state RecvResponse",) for o in obs)
+    return any(o in ("state RecvResponse", "call RecvResponse") for o in obs)
